@@ -5,6 +5,7 @@ import (
 	"encoding/binary"
 	"encoding/json"
 	"fmt"
+	"math"
 
 	"berty.tech/go-ipfs-log/entry"
 	"berty.tech/go-orbit-db/iface"
@@ -46,6 +47,11 @@ func SaveSnapshot(ctx context.Context, b iface.Store) (cid.Cid, error) {
 
 	headerSize := len(header)
 
+	// lengths are recorded on 16 bits: refuse what cannot be read back
+	if headerSize > math.MaxUint16 {
+		return cid.Cid{}, fmt.Errorf("unable to save snapshot: header is too large (%d bytes)", headerSize)
+	}
+
 	size := make([]byte, 2)
 	binary.BigEndian.PutUint16(size, uint16(headerSize))
 	rs := append(size, header...)
@@ -55,6 +61,10 @@ func SaveSnapshot(ctx context.Context, b iface.Store) (cid.Cid, error) {
 
 		if err != nil {
 			return cid.Cid{}, fmt.Errorf("unable to serialize entry as JSON: %w", err)
+		}
+
+		if len(entryJSON) > math.MaxUint16 {
+			return cid.Cid{}, fmt.Errorf("unable to save snapshot: entry is too large (%d bytes)", len(entryJSON))
 		}
 
 		size := make([]byte, 2)
